@@ -59,7 +59,44 @@ struct MUser {
     removed: bool,
 }
 
-const PASSWORDS: [&str; 5] = ["hunter2", "correct horse battery staple", "", "pässwörd-😀", "hunter3"];
+const PASSWORDS: [&str; 9] = [
+    "hunter2",
+    "correct horse battery staple",
+    "",
+    "pässwörd-😀",
+    "hunter3",
+    // two long passwords that differ only in their last character (beyond any 64/72-byte prefix), one that differs from
+    // the first only in its first character, and one with an inner NUL
+    "xxxxxxxxxxxxxxxxxxxxxxxxxxxxxxxxxxxxxxxxxxxxxxxxxxxxxxxxxxxxxxxxxxxxxxxxxxxxxxxxxxxxxxxxxxxxA",
+    "xxxxxxxxxxxxxxxxxxxxxxxxxxxxxxxxxxxxxxxxxxxxxxxxxxxxxxxxxxxxxxxxxxxxxxxxxxxxxxxxxxxxxxxxxxxxB",
+    "yxxxxxxxxxxxxxxxxxxxxxxxxxxxxxxxxxxxxxxxxxxxxxxxxxxxxxxxxxxxxxxxxxxxxxxxxxxxxxxxxxxxxxxxxxxxA",
+    "hun\0ter2",
+];
+
+/// A password that is not `pw` but close to it (the ways an implementation could confuse two passwords: a shared prefix,
+/// a truncation, letter case, padding, a terminator).
+fn near_miss(pw: &str, variant: u8) -> String {
+    let chars: Vec<char> = pw.chars().collect();
+    let out: String = match variant % 8 {
+        0 => format!("{}x", pw),
+        1 => chars[..chars.len().saturating_sub(1)].iter().collect(),
+        2 => {
+            let mut done = false;
+            chars.iter().map(|c| if !done && c.is_ascii_alphabetic() { done = true; if c.is_ascii_lowercase() { c.to_ascii_uppercase() } else { c.to_ascii_lowercase() } } else { *c }).collect()
+        }
+        3 => {
+            let mut v = chars.clone();
+            if let Some(l) = v.last_mut() { *l = if *l == 'q' { 'r' } else { 'q' }; }
+            v.into_iter().collect()
+        }
+        4 => format!("{}\0", pw),
+        5 => if chars.len() > 16 { chars[..16].iter().collect() } else { format!("{} ", pw) },
+        6 => format!("{}{}", pw, pw),
+        _ => format!(" {}", pw),
+    };
+    if out == pw { format!("{}x", pw) } else { out }
+}
+
 
 pub fn check(c: &Case, shard: usize, stats: &mut (bool, bool)) -> Vec<Fail> {
     let mut config = AuthConfig::default();
@@ -120,7 +157,7 @@ pub fn check(c: &Case, shard: usize, stats: &mut (bool, bool)) -> Vec<Fail> {
                 if let Some(k) = slot(*u, users.len()) {
                     let (uid, pw, want): (String, String, bool) = match kind % 4 {
                         0 => (users[k].uid.clone(), users[k].password.clone(), !users[k].removed),
-                        1 => (users[k].uid.clone(), format!("{}x", users[k].password), false),
+                        1 => (users[k].uid.clone(), near_miss(&users[k].password, kind / 4), false),
                         2 => {
                             let other = &users[(k + 1) % users.len()];
                             (users[k].uid.clone(), other.password.clone(), !users[k].removed && other.password == users[k].password)
@@ -325,7 +362,7 @@ fn arb_op() -> impl Strategy<Value = Op> {
     prop_oneof![
         3 => any::<u8>().prop_map(Op::CreateUser),
         1 => any::<u8>().prop_map(Op::RemoveUser),
-        2 => (any::<u8>(), 0u8..4).prop_map(|(a, b)| Op::Verify(a, b)),
+        2 => (any::<u8>(), 0u8..32).prop_map(|(a, b)| Op::Verify(a, b)),
         5 => (any::<u8>(), 0u8..3).prop_map(|(a, b)| Op::CreateSession(a, b)),
         4 => any::<u8>().prop_map(Op::Refresh),
         2 => any::<u8>().prop_map(Op::Invalidate),
